@@ -1,3 +1,84 @@
 import SupervisorModel.Basic.DriverKit
--- stub: replaced by the property author
-def main : IO Unit := Sv.driverMain []
+import SupervisorModel.Model.SupDriver
+import SupervisorModel.Model.AllFunc
+/-
+  drv_c13: the daemon model (`sup` cases, the same entry point drv_c02 uses) and the make_allfunc model
+  (`allfunc` cases).
+
+    case allfunc <process>*          one token per (group, process) pair of the list, in list order:
+                                     <group>/<name>/<0|1 predicate>/<imm>/<poll>;<poll>;...
+                                     imm  = D (func returns a function) | V (returns a plain value) | R<code>:<text>
+                                     poll = N (NOT_DONE_YET) | V | R<code>:<text>
+                                     a process whose imm is D needs a poll list ending in V or R (the callback is never
+                                     polled after that); any other process needs an empty poll list
+    invoke                           one invocation of the closure ->
+                                     <NOT_DONE_YET | results name:group:status:description ...> | <seam calls of this invocation>
+                                     seam calls: t<i> predicate tested, c<i>=<namespec> func called, p<i> callback of process i polled
+-/
+namespace Sv.AllFunc.Driver
+open Sv Sv.AllFunc
+
+def parseCodeText (s : String) : Option (Int × String) :=
+  match s.splitOn ":" with
+  | [c, t] => c.toInt?.map fun c => (c, t)
+  | _ => none
+
+def parseImm (s : String) : Option Imm :=
+  if s == "D" then some .deferred else if s == "V" then some .value
+  else if s.startsWith "R" then (parseCodeText (s.drop 1).toString).map fun ct => .raises ct.1 ct.2
+  else none
+
+def parsePoll (s : String) : Option Poll :=
+  if s == "N" then some .notDone else if s == "V" then some .value
+  else if s.startsWith "R" then (parseCodeText (s.drop 1).toString).map fun ct => .raises ct.1 ct.2
+  else none
+
+def parsePolls (s : String) : Option (List Poll) :=
+  if s == "" then some [] else (s.splitOn ";").mapM parsePoll
+
+/-- a finite poll script as a stream: the last outcome (which is final) repeats; never consulted beyond it by the model -/
+def streamOf (l : List Poll) (k : Nat) : Poll := l.getD k (l.getLast?.getD .value)
+
+def parseProc (tok : String) : Option PSpec :=
+  match tok.splitOn "/" with
+  | [g, n, e, i, p] =>
+    match parseImm i, parsePolls p with
+    | some imm, some polls =>
+      let eOk := e == "0" || e == "1"
+      let pOk := if imm == .deferred then (match polls.getLast? with | some .notDone => false | some _ => true | none => false)
+                 else polls.isEmpty
+      if eOk && pOk && g != "" && n != "" then
+        some { group := g, name := n, eligible := e == "1", imm := imm, polls := streamOf polls }
+      else none
+    | _, _ => none
+  | _ => none
+
+def showEntry (e : Entry) : String := s!"{e.name}:{e.group}:{e.status}:{e.description}"
+
+def showEv : Ev → String
+  | .test i => s!"t{i}"
+  | .call i ns => s!"c{i}={ns}"
+  | .poll i => s!"p{i}"
+
+def showAnswer : Answer → String
+  | .notDoneYet => "NOT_DONE_YET"
+  | .results rs => " ".intercalate ("results" :: rs.map showEntry)
+  | .unmodelled => "unmodelled-structure"
+
+def go (env : Env) : State → List String → List String
+  | _, [] => []
+  | s, op :: rest =>
+    if op == "invoke" then
+      let r := invoke env s
+      let evs := (r.1.log.drop s.log.length).map showEv
+      (showAnswer r.2 ++ " | " ++ " ".intercalate evs) :: go env r.1 rest
+    else "bad-op" :: go env s rest
+
+def runCase (cfg : List String) (ops : List String) : List String :=
+  match cfg.mapM parseProc with
+  | none => ops.map fun _ => "bad-config"
+  | some ps => go (Env.ofList ps) State.init ops
+
+end Sv.AllFunc.Driver
+
+def main : IO Unit := Sv.driverMain [("sup", Sv.Sup.runCase), ("allfunc", Sv.AllFunc.Driver.runCase)]
